@@ -180,6 +180,7 @@ KernelEq ==
         /\ e.inside_nonzero[i] = e.inside_nonzero[1]
         /\ e.inside_nonzero[1] * 2 > e.L
         /\ e.dense_milli[i] <= 1000
+        /\ e.nan_ok[i]             \* NaN everywhere outside the window does not change the result
 
 \* numeric guards (not the deciding argument): difference of two instances' last outputs in
 \* units of epsilon * peak is below the bound the script states
